@@ -74,8 +74,9 @@ package verifier
 
 //@ func (c *VerifierChip) GetChallenges(proof variables.Proof, publicInputsHash poseidon.GoldilocksHashOut, verifierData variables.VerifierOnlyCircuitData) (res variables.ProofChallenges)
 //@   props C11 C14 C17 C05
-//@   circuit sound-only
+//@   circuit
 //@   requires c.commonData.Config.NumChallenges <= pow2(16) && c.commonData.Config.FriConfig.NumQueryRounds <= pow2(32)
+//@   complete_requires canonProof(proof) && forall(k, 0, 4, canon(publicInputsHash[k]))
 //@   ghost ops fri.Openings = callresult("fri.Chip.ToOpenings", 0)
 //@   ensures[openings] to_openings_ok(ops, proof.Openings)
 //@   ensures[canon-challenges] canonSeq(res.PlonkBetas) && canonSeq(res.PlonkGammas) && canonSeq(res.PlonkAlphas) && canonQE(res.PlonkZeta) && canonQE(res.FriChallenges.FriAlpha) && canonQEs(res.FriChallenges.FriBetas)
